@@ -17,7 +17,8 @@ EXPLANATION = (
     "D4 UniqueDotExporter's identifier map is keyed by id(node), get-or-insert with a counter, assigned only in __init__; "
     "D5 header/options/nodes/edges/'}' order with lines passed on unchanged, to_dotfile writes exactly those lines, the "
     "legacy RenderTreeGraph adds only a forwarding constructor, every constructor option is stored under its own name. "
-    "Not decided: the exact text of the lines."
+    "D1c every admitted node/edge reaches its yield on every path of its loop; D6 line templates are constants filled through "
+    "%-arguments / format fields only. Not decided: the exact text of the lines."
 )
 ASSUMPTIONS = ["PreOrderIter admits nodes as C06 states", "user-supplied name/attribute functions are opaque"]
 FILES = {"anytree/exporter/dotexporter.py", "anytree/dotexport.py"}
